@@ -216,6 +216,31 @@ CLAIMED = {
     note="Scalars host-coherent; iterations inside compute constructs run "
          "serially; ACCUpdateTrans and enter-data are outside the check; the "
          "write-first => copyout rule is an open known finding (KF-C13-1)."),
+ "C25": dict(
+    engine="E6-gocean",
+    technique="deterministic simulation: the generated GOcean PSy layer is "
+              "executed against a stub dl_esm_inf, OpenMP regions as a team "
+              "of simulated threads under a seeded scheduler (static/"
+              "dynamic/guided worksharing, barriers); seeded transformation "
+              "histories and configuration files; the recorded history of "
+              "kernel calls is checked against an independent region oracle",
+    text="Seeded GOcean invokes (generated kernel metadata with every index "
+         "offset x grid-point type x iteration space incl. user-defined "
+         "spaces read from a generated configuration file; grid 3..7) go "
+         "through the real pipeline and histories of <=6 of constant loop "
+         "bounds, loop fusion (outer, inner), OpenMP parallel-loop / loop+"
+         "region with several schedules, OpenACC loop/parallel/enter-data "
+         "and extraction. The generated text is executed for the empty and "
+         "the full history with 1-4 threads under seeded schedules; every "
+         "call site must visit exactly its region (frozen copy of the "
+         "built-in table / my own evaluation of the configuration text) once, "
+         "and at each point kernels are called in invoke order. Sampling. The "
+         "region look-up itself is a pure function; what the simulation "
+         "decides is its invariance under histories, settings and schedules.",
+    design_ref="DESIGN.md 4.13",
+    note="Stub regions come from the frozen table for the grid's own offset; "
+         "kernels record calls, nothing is computed; OpenACC runs as one "
+         "gang; KF-C25-1 (constant loop bounds x go_offset_any) is open."),
 }
 
 NOT_APPLICABLE = {
@@ -292,6 +317,9 @@ def main():
             {"name": "E3-accsim", "path": "simkit/accgen.py, simkit/accsim.py, simkit/interp.py, checks/c13.py",
              "serves_properties": ["C13"],
              "kind_free_text": "program + OpenACC history generator, PSyIR interpreter with a separate poisoned device store driven by the written data clauses"},
+            {"name": "E6-gocean", "path": "simkit/gogen.py, simkit/gosim.py, checks/c25.py, checks/c25_table.py",
+             "serves_properties": ["C25"],
+             "kind_free_text": "GOcean workload + config generator, executor of the generated PSy layer with simulated OpenMP team and stub dl_esm_inf, frozen region table"},
             {"name": "E4-transhistory", "path": "simkit/richgen.py, simkit/histmachine.py, simkit/gfcheck.py, checks/c26.py, checks/c10.py, checks/c04.py",
              "serves_properties": ["C26", "C10", "C04"],
              "kind_free_text": "transformation-history machine over generated modules; refusals as crash points; gfortran as validity oracle"},
